@@ -404,3 +404,39 @@ func c14RegexpEscapeScan(p *Prog) *RuleResult {
 	r.Floor(2)
 	return r
 }
+
+// ---------------------------------------------------------------------------------------------
+// C14/R13 object-rest-detectors-look-through-array-rest.
+//
+// An object rest pattern can sit inside an array rest element: `let [...{...x}] = y`. In expression
+// form the array rest element is an ESpread node. The two detectors that decide whether a pattern
+// needs object-rest lowering (exprHasObjectRest, and the marking scan of lowerObjectRestHelper) must
+// look through it, or the pattern is emitted unlowered for a target without object rest, with no
+// diagnostic.
+func c14ObjectRestThroughArrayRest(p *Prog) *RuleResult {
+	r := NewRule("C14/R13 object-rest-detectors-look-through-array-rest", "the detectors of object rest patterns look through an array rest element (ESpread)")
+	type det struct{ name, find string }
+	n := 0
+	for _, d := range []det{{"exprHasObjectRest", "js_parser.exprHasObjectRest"}, {"the marking scan of lowerObjectRestHelper", "js_parser.(*parser).lowerObjectRestHelper$1"}} {
+		fn := p.FindFunc(d.find)
+		if !r.Anchor(d.find, fn != nil) {
+			continue
+		}
+		n++
+		r.Instances++
+		key := d.name + " handles ESpread"
+		has := false
+		eachInstr(fn, func(b *ssa.BasicBlock, in ssa.Instruction) {
+			if ta, ok := in.(*ssa.TypeAssert); ok && namedTypeName(ta.AssertedType) == "js_ast.ESpread" {
+				has = true
+			}
+		})
+		if has {
+			r.OK(key, true, "has a case for *js_ast.ESpread")
+		} else {
+			r.Fail(key, p.Pos(fn.Pos()), "the detector has no case for an array rest element: `let [...{...x}] = y` (also as an assignment target and as a parameter) is emitted unchanged for a target without object rest, and nothing is reported")
+		}
+	}
+	r.Floor(2)
+	return r
+}
